@@ -1,1 +1,632 @@
-//! C27: not implemented yet.
+//! C27 — Server cookie keys persist safely across restarts and crashes (ntp-proto part).
+//!
+//! Engine E-CRASH (crash-point / fault enumeration) against the real
+//! `KeySetProvider::store` / `KeySetProvider::load`.
+//!
+//! The daemon stores with `OpenOptions::create(true).truncate(true).write(true)` followed by
+//! `provider.store(&mut file)` (ntpd/src/daemon/nts_key_provider.rs; checked on the real file
+//! system by the ntpd part of this check), i.e. truncate-then-write: after a crash the file is
+//! a *prefix* of the byte stream `store` emits. So for every key set S out of a family built
+//! with the real provider (history h = 0..=3 (thorough 0..=5), fresh or with ids wrapping at
+//! 2^32, 0..=h+2 rotations => 1..=4 (6) keys, cookies of both algorithms issued at every rotation):
+//!
+//!  * the byte stream of `store` is recorded by a logging `Write`; it must not depend on how
+//!    the writer splits the data (1 / 3 / 64 bytes per call) and a writer failing after k
+//!    bytes (every k) must leave exactly the k-byte prefix and make `store` return `Err`;
+//!  * EVERY prefix (= every truncation) of the stream, through readers that hand out 1, 7 or
+//!    all bytes per call, goes into the real `load`: `Err` or exactly S (judged on the probe
+//!    view: keys, id offset, primary); the full stream must give exactly S;
+//!  * every header field (time, id offset, primary, key count) is set to every value of
+//!    {0, 1, n-1, n, n+1, 2^31, 2^32-1} (time also 2^63-1, 2^63, 2^64-1): all single-field
+//!    faults, all pairs and triples (thorough: all quadruples too);
+//!  * every bit of every byte of the file (20 header bytes and 64 n key bytes) is flipped.
+//!
+//! Every key set that `load` returns is USED the way the daemon uses it, with panics caught:
+//! a cookie of each algorithm is issued and decoded, all pre-crash cookies are decoded, the
+//! provider is rotated, again a cookie of each algorithm is issued and decoded.
+//!
+//! Oracle (statement): crash prefix => rejected or exactly the stored set; healthy file =>
+//! exactly the stored set, which decodes every pre-crash cookie that was still valid to its
+//! own session keys and rejects the expired ones; corrupted file => rejected, or a set that
+//! issues cookies that decode back, never decodes a cookie to other keys, and never panics
+//! (a panic = abort of the shipped daemon, which is built with panic=abort).
+use std::io::{Read, Write};
+
+use super::c26::{decode_vs, field, key_material, mk_cookie, Dec, Issued};
+use super::common::{self, Ctx};
+use crate::keyset::verif_probe::gi as probe;
+use crate::keyset::KeySetProvider;
+use crate::packet::{AesSivCmac512, Cipher};
+
+// ---------------------------------------------------------------------------------
+// environment: writers and readers
+// ---------------------------------------------------------------------------------
+
+/// Records the byte stream; accepts at most `per` bytes per call; fails (hard error) once
+/// `fail_at` bytes were taken.
+struct LogWriter {
+    bytes: Vec<u8>,
+    calls: u64,
+    per: usize,
+    fail_at: Option<usize>,
+}
+
+impl LogWriter {
+    fn new(per: usize, fail_at: Option<usize>) -> Self {
+        LogWriter { bytes: Vec::new(), calls: 0, per, fail_at }
+    }
+}
+
+impl Write for LogWriter {
+    fn write(&mut self, buf: &[u8]) -> std::io::Result<usize> {
+        self.calls += 1;
+        let mut n = buf.len().min(self.per);
+        if let Some(f) = self.fail_at {
+            let room = f.saturating_sub(self.bytes.len());
+            if room == 0 && !buf.is_empty() {
+                return Err(std::io::Error::other("verif: injected write failure (disk full / crash)"));
+            }
+            n = n.min(room);
+        }
+        self.bytes.extend_from_slice(&buf[..n]);
+        Ok(n)
+    }
+    fn flush(&mut self) -> std::io::Result<()> {
+        Ok(())
+    }
+}
+
+/// Hands out at most `chunk` bytes per `read` call.
+struct Chunked<'a> {
+    data: &'a [u8],
+    pos: usize,
+    chunk: usize,
+}
+
+impl Read for Chunked<'_> {
+    fn read(&mut self, buf: &mut [u8]) -> std::io::Result<usize> {
+        let n = buf.len().min(self.chunk).min(self.data.len() - self.pos);
+        buf[..n].copy_from_slice(&self.data[self.pos..self.pos + n]);
+        self.pos += n;
+        Ok(n)
+    }
+}
+
+// ---------------------------------------------------------------------------------
+// the family of stored key sets
+// ---------------------------------------------------------------------------------
+
+#[derive(Clone, Copy, Debug, PartialEq, Eq, Hash)]
+struct SetSpec {
+    h: usize,
+    start: Option<u32>,
+    rot: usize,
+}
+
+impl SetSpec {
+    fn tag(&self) -> String {
+        match self.start {
+            None => format!("h={};start=new;rot={}", self.h, self.rot),
+            Some(o) => format!("h={};start={};rot={}", self.h, o, self.rot),
+        }
+    }
+    fn parse(parts: &[&str]) -> Option<SetSpec> {
+        Some(SetSpec {
+            h: field(parts, "h")?.parse().ok()?,
+            start: match field(parts, "start")? {
+                "new" => None,
+                s => Some(s.parse().ok()?),
+            },
+            rot: field(parts, "rot")?.parse().ok()?,
+        })
+    }
+}
+
+struct Built {
+    spec: SetSpec,
+    prov: KeySetProvider,
+    view: probe::View,
+    /// cookies issued before the store (both algorithms at every rotation count)
+    pre: Vec<Issued>,
+    stream: Vec<u8>,
+}
+
+impl Built {
+    fn n(&self) -> usize {
+        self.view.keys.len()
+    }
+    fn pre_valid(&self, c: &Issued) -> bool {
+        self.spec.rot as u64 - c.rot <= self.spec.h as u64
+    }
+}
+
+fn build_set(spec: SetSpec) -> Built {
+    let mut prov = match spec.start {
+        None => KeySetProvider::new(spec.h),
+        Some(o) => probe::build(
+            &probe::View {
+                keys: vec![AesSivCmac512::new_random().key_bytes().to_vec()],
+                id_offset: o,
+                primary: 0,
+            },
+            spec.h,
+        ),
+    };
+    let mut pre = Vec::new();
+    for r in 0..=spec.rot {
+        for alg in 0..2u8 {
+            let s2c = key_material(alg, 4, 1 + r as u8 * 2);
+            let c2s = key_material(alg, 4, 2 + r as u8 * 2);
+            let bytes = prov.get().encode_cookie(&mk_cookie(alg, &s2c, &c2s));
+            pre.push(Issued { bytes, alg, s2c, c2s, rot: r as u64 });
+        }
+        if r < spec.rot {
+            prov.rotate();
+        }
+    }
+    let mut w = LogWriter::new(usize::MAX, None);
+    prov.store(&mut w).expect("store into a Vec cannot fail");
+    let view = probe::view(&prov.get());
+    Built { spec, prov, view, pre, stream: w.bytes }
+}
+
+// ---------------------------------------------------------------------------------
+// load + use
+// ---------------------------------------------------------------------------------
+
+enum Loaded {
+    Panic(String),
+    Rejected,
+    Ok(KeySetProvider),
+}
+
+fn load_bytes(bytes: &[u8], chunk: usize, h: usize) -> Loaded {
+    let mut rd = Chunked { data: bytes, pos: 0, chunk };
+    match common::catch(|| KeySetProvider::load(&mut rd, h)) {
+        Err(p) => Loaded::Panic(p),
+        Ok(Err(_)) => Loaded::Rejected,
+        Ok(Ok((p, _time))) => Loaded::Ok(p),
+    }
+}
+
+struct UseObs {
+    fresh: [Dec; 2],
+    pre: Vec<Dec>,
+    fresh_after_rotate: [Dec; 2],
+}
+
+impl UseObs {
+    fn text(&self) -> String {
+        format!("fresh={:?} pre={:?} after_rotate={:?}", self.fresh, self.pre, self.fresh_after_rotate)
+    }
+}
+
+/// Use a provider the way the daemon does. `Err` = a panic (stage: message).
+fn use_set(mut p: KeySetProvider, pre: &[Issued]) -> Result<UseObs, String> {
+    fn issue_and_decode(p: &KeySetProvider, stage: &str) -> Result<[Dec; 2], String> {
+        let mut out = [Dec::Rejected; 2];
+        for alg in 0..2u8 {
+            let s2c = key_material(alg, 3, 1);
+            let c2s = key_material(alg, 3, 2);
+            let ks = p.get();
+            let bytes = common::catch(|| ks.encode_cookie(&mk_cookie(alg, &s2c, &c2s)))
+                .map_err(|e| format!("{stage}: encode_cookie panicked: {e}"))?;
+            let (d, why) = decode_vs(p, &bytes, alg, &s2c, &c2s);
+            if d == Dec::Panic {
+                return Err(format!("{stage}: decode_cookie panicked: {why}"));
+            }
+            out[alg as usize] = d;
+        }
+        Ok(out)
+    }
+    let fresh = issue_and_decode(&p, "use")?;
+    let mut pre_obs = Vec::with_capacity(pre.len());
+    for c in pre {
+        let (d, why) = decode_vs(&p, &c.bytes, c.alg, &c.s2c, &c.c2s);
+        if d == Dec::Panic {
+            return Err(format!("use: decode of pre-crash cookie panicked: {why}"));
+        }
+        pre_obs.push(d);
+    }
+    common::catch(|| p.rotate()).map_err(|e| format!("use: rotate panicked: {e}"))?;
+    let fresh_after_rotate = issue_and_decode(&p, "use after rotate")?;
+    Ok(UseObs { fresh, pre: pre_obs, fresh_after_rotate })
+}
+
+/// What the harness wrote into the header of the file under test (NOT read back from the
+/// implementation): used only to give violations a stable class name.
+fn header_of(file: &[u8]) -> Option<(u64, u32, u32, u32)> {
+    if file.len() < 20 {
+        return None;
+    }
+    Some((
+        u64::from_be_bytes(file[0..8].try_into().unwrap()),
+        u32::from_be_bytes(file[8..12].try_into().unwrap()),
+        u32::from_be_bytes(file[12..16].try_into().unwrap()),
+        u32::from_be_bytes(file[16..20].try_into().unwrap()),
+    ))
+}
+
+/// Load `file`, use what comes out, judge it as a *corrupted* file. Returns the observation.
+fn run_corrupt(ctx: &Ctx, b: &Built, file: &[u8], chunk: usize, kind: &str, trace: &str) -> String {
+    ctx.inc("evaluations");
+    ctx.inc(&format!("{kind}_cases"));
+    let hdr = header_of(file);
+    match load_bytes(file, chunk, b.spec.h) {
+        Loaded::Panic(p) => {
+            let class = match hdr {
+                Some((t, ..)) if t > i64::MAX as u64 => "C27:load-time-overflow",
+                _ => "C27:load-panic",
+            };
+            ctx.violation(class, format!("KeySetProvider::load panicked (daemon would abort at start-up): {p}"), trace);
+            ctx.inc(&format!("{kind}_load_panicked"));
+            format!("load=panic({p})")
+        }
+        Loaded::Rejected => {
+            ctx.inc(&format!("{kind}_rejected"));
+            "load=Err".into()
+        }
+        Loaded::Ok(p) => {
+            ctx.inc(&format!("{kind}_loaded"));
+            let same = probe::view(&p.get()) == b.view;
+            if same {
+                ctx.inc(&format!("{kind}_loaded_equal_to_stored"));
+            }
+            match use_set(p, &b.pre) {
+                Err(panic) => {
+                    let class = match hdr {
+                        Some((_, _, primary, len)) if primary >= len => "C27:load-primary-out-of-range",
+                        _ => "C27:loaded-set-unusable",
+                    };
+                    ctx.violation(
+                        class,
+                        format!("load accepted the file (header {hdr:?}) but the key set panics when used: {panic}"),
+                        trace,
+                    );
+                    ctx.inc(&format!("{kind}_use_panicked"));
+                    format!("load=Ok use=panic({panic})")
+                }
+                Ok(o) => {
+                    ctx.inc("sets_used_ok");
+                    if o.fresh != [Dec::Same; 2] || o.fresh_after_rotate != [Dec::Same; 2] {
+                        ctx.violation(
+                            "C27:loaded-set-unusable",
+                            format!("loaded key set cannot decode its own new cookies: {}", o.text()),
+                            trace,
+                        );
+                    }
+                    for (c, d) in b.pre.iter().zip(&o.pre) {
+                        match d {
+                            Dec::Same => ctx.inc("pre_cookie_decoded"),
+                            Dec::Rejected => ctx.inc("pre_cookie_rejected"),
+                            _ => ctx.violation(
+                                "C27:loaded-set-decodes-wrong-keys",
+                                format!("pre-crash cookie (rotation {}) decodes to other session keys", c.rot),
+                                trace,
+                            ),
+                        }
+                        if same && (*d == Dec::Same) != b.pre_valid(c) {
+                            ctx.violation(
+                                "C27:restored-set-cookie-validity",
+                                format!("restored set: cookie of rotation {} (stored at {}, history {}) -> {d:?}", c.rot, b.spec.rot, b.spec.h),
+                                trace,
+                            );
+                        }
+                    }
+                    format!("load=Ok equal={same} {}", o.text())
+                }
+            }
+        }
+    }
+}
+
+// ---------------------------------------------------------------------------------
+// the four enumerations per stored set
+// ---------------------------------------------------------------------------------
+
+const CHUNKS: [usize; 3] = [usize::MAX, 1, 7];
+
+fn store_faults(ctx: &Ctx, b: &Built) {
+    let tag = b.spec.tag();
+    let len = b.stream.len();
+    // layout assumptions of the fault grammar (not an oracle): checked, not trusted
+    let hdr = header_of(&b.stream);
+    if len != 20 + 64 * b.n() || hdr.map(|h| (h.1, h.2, h.3)) != Some((b.view.id_offset, b.view.primary, b.n() as u32)) {
+        ctx.violation("C27:format-assumption", format!("harness layout assumption broken: len {len}, header {hdr:?}, view {:?}/{:?}/{}", b.view.id_offset, b.view.primary, b.n()), format!("prefix;{tag};k={len};chunk=0"));
+    }
+    // short writes: the stream must not depend on the writer
+    for per in [1usize, 3, 64] {
+        let mut w = LogWriter::new(per, None);
+        let r = common::catch(|| b.prov.store(&mut w));
+        ctx.inc("evaluations");
+        ctx.inc("store_runs");
+        match r {
+            Ok(Ok(())) if w.bytes.len() == len && w.bytes[8..] == b.stream[8..] => ctx.inc("store_short_write_same_stream"),
+            Ok(r) => ctx.violation(
+                "C27:store-stream-depends-on-writer",
+                format!("writer taking {per} byte(s) per call: store -> {r:?}, {} bytes written, expected the same {len}-byte stream", w.bytes.len()),
+                format!("wfail;{tag};k=none;per={per}"),
+            ),
+            Err(p) => ctx.violation("C27:store-panic", format!("store panicked: {p}"), format!("wfail;{tag};k=none;per={per}")),
+        }
+    }
+    // write error after k bytes, every k
+    for k in 0..len {
+        for per in [usize::MAX, 5] {
+            let mut w = LogWriter::new(per, Some(k));
+            let r = common::catch(|| b.prov.store(&mut w));
+            ctx.inc("evaluations");
+            ctx.inc("store_runs");
+            let trace = format!("wfail;{tag};k={k};per={}", if per == usize::MAX { 0 } else { per });
+            match r {
+                Err(p) => ctx.violation("C27:store-panic", format!("store panicked on a write error: {p}"), trace),
+                Ok(Ok(())) => ctx.violation("C27:store-error-not-reported", format!("store returned Ok although the writer failed after {k} of {len} bytes"), trace),
+                Ok(Err(_)) => {
+                    ctx.inc("store_write_error_reported");
+                    let same_prefix = w.bytes.len() == k && (k <= 8 || w.bytes[8..] == b.stream[8..k]);
+                    if !same_prefix {
+                        ctx.violation("C27:store-stream-depends-on-writer", format!("after a write error at {k} the file holds {} bytes that are not the {k}-byte prefix of the stream", w.bytes.len()), trace);
+                    }
+                }
+            }
+        }
+    }
+}
+
+fn prefix_case(ctx: &Ctx, b: &Built, k: usize, chunk: usize) -> String {
+    let trace = format!("prefix;{};k={k};chunk={}", b.spec.tag(), if chunk == usize::MAX { 0 } else { chunk });
+    let full = k == b.stream.len();
+    ctx.inc("evaluations");
+    ctx.inc("crash_prefix_cases");
+    match load_bytes(&b.stream[..k], chunk, b.spec.h) {
+        Loaded::Panic(p) => {
+            ctx.violation("C27:load-panic", format!("load of the {k}-byte prefix panicked: {p}"), trace);
+            format!("load=panic({p})")
+        }
+        Loaded::Rejected => {
+            if full {
+                ctx.violation("C27:restore-fails", "load rejects the complete, healthy file".to_string(), trace);
+            } else {
+                ctx.inc("crash_prefix_rejected");
+            }
+            "load=Err".into()
+        }
+        Loaded::Ok(p) => {
+            let same = probe::view(&p.get()) == b.view && probe::history(&p) == b.spec.h;
+            if !same {
+                ctx.violation(
+                    if full { "C27:restore-differs" } else { "C27:crash-prefix-loads-other-set" },
+                    format!("load of the first {k} of {} stored bytes returns a key set different from the stored one: {:?}", b.stream.len(), p.get()),
+                    trace.clone(),
+                );
+            }
+            if full {
+                ctx.inc("full_file_restored");
+            } else {
+                ctx.inc("crash_prefix_loaded");
+            }
+            // the restored set is used: every valid pre-crash cookie must decode to its keys
+            match use_set(p, &b.pre) {
+                Err(panic) => {
+                    ctx.violation("C27:loaded-set-unusable", format!("set loaded from a {k}-byte prefix panics when used: {panic}"), trace);
+                    format!("load=Ok equal={same} use=panic({panic})")
+                }
+                Ok(o) => {
+                    ctx.inc("sets_used_ok");
+                    if o.fresh != [Dec::Same; 2] || o.fresh_after_rotate != [Dec::Same; 2] {
+                        ctx.violation("C27:loaded-set-unusable", format!("restored key set cannot decode its own new cookies: {}", o.text()), trace.clone());
+                    }
+                    for (c, d) in b.pre.iter().zip(&o.pre) {
+                        let want = if b.pre_valid(c) { Dec::Same } else { Dec::Rejected };
+                        if *d == want {
+                            ctx.inc(if want == Dec::Same { "pre_cookie_decoded" } else { "pre_cookie_rejected" });
+                        } else {
+                            ctx.violation(
+                                "C27:restored-set-cookie-validity",
+                                format!("after restart the cookie issued at rotation {} (stored at rotation {}, history {}) gives {d:?}, expected {want:?}", c.rot, b.spec.rot, b.spec.h),
+                                trace.clone(),
+                            );
+                        }
+                    }
+                    format!("load=Ok equal={same} {}", o.text())
+                }
+            }
+        }
+    }
+}
+
+#[derive(Clone, Copy, PartialEq, Eq, Debug)]
+struct HdrFault {
+    time: Option<u64>,
+    off: Option<u32>,
+    primary: Option<u32>,
+    len: Option<u32>,
+}
+
+impl HdrFault {
+    fn degree(&self) -> usize {
+        self.time.is_some() as usize + self.off.is_some() as usize + self.primary.is_some() as usize + self.len.is_some() as usize
+    }
+    fn apply(&self, stream: &[u8]) -> Vec<u8> {
+        let mut f = stream.to_vec();
+        if let Some(t) = self.time {
+            f[0..8].copy_from_slice(&t.to_be_bytes());
+        }
+        if let Some(o) = self.off {
+            f[8..12].copy_from_slice(&o.to_be_bytes());
+        }
+        if let Some(p) = self.primary {
+            f[12..16].copy_from_slice(&p.to_be_bytes());
+        }
+        if let Some(l) = self.len {
+            f[16..20].copy_from_slice(&l.to_be_bytes());
+        }
+        f
+    }
+    fn text(&self) -> String {
+        fn s<T: std::fmt::Display>(o: Option<T>) -> String {
+            o.map_or("keep".to_string(), |v| v.to_string())
+        }
+        format!("time={};off={};primary={};len={}", s(self.time), s(self.off), s(self.primary), s(self.len))
+    }
+    fn parse(parts: &[&str]) -> HdrFault {
+        fn g<T: std::str::FromStr>(parts: &[&str], n: &str) -> Option<T> {
+            field(parts, n).and_then(|v| v.parse().ok())
+        }
+        HdrFault { time: g(parts, "time"), off: g(parts, "off"), primary: g(parts, "primary"), len: g(parts, "len") }
+    }
+}
+
+fn field_values(n: u32) -> Vec<u32> {
+    let mut v = vec![0, 1, n.wrapping_sub(1), n, n + 1, 1 << 31, u32::MAX];
+    v.sort();
+    v.dedup();
+    v
+}
+
+fn header_faults(ctx: &Ctx, b: &Built, max_degree: usize) {
+    let n = b.n() as u32;
+    let (t0, o0, p0, l0) = header_of(&b.stream).expect("header");
+    let v32 = field_values(n);
+    let mut times: Vec<u64> = v32.iter().map(|v| *v as u64).collect();
+    times.extend([i64::MAX as u64, 1 << 63, u64::MAX]);
+    let opt = |vals: &[u32], cur: u32| -> Vec<Option<u32>> {
+        std::iter::once(None).chain(vals.iter().filter(|v| **v != cur).map(|v| Some(*v))).collect()
+    };
+    let topt: Vec<Option<u64>> = std::iter::once(None).chain(times.iter().filter(|v| **v != t0).map(|v| Some(*v))).collect();
+    let (oo, po, lo) = (opt(&v32, o0), opt(&v32, p0), opt(&v32, l0));
+    for degree in 1..=max_degree {
+        for &time in &topt {
+            for &off in &oo {
+                for &primary in &po {
+                    for &len in &lo {
+                        let f = HdrFault { time, off, primary, len };
+                        if f.degree() != degree {
+                            continue;
+                        }
+                        let file = f.apply(&b.stream);
+                        let trace = format!("hdr;{};{}", b.spec.tag(), f.text());
+                        run_corrupt(ctx, b, &file, usize::MAX, "header_field", &trace);
+                        ctx.distinct(common::hash_of(&("hdr", b.spec, f.text())));
+                    }
+                }
+            }
+        }
+    }
+}
+
+fn bit_flips(ctx: &Ctx, b: &Built) {
+    let mut file = b.stream.clone();
+    for i in 0..file.len() {
+        for bit in 0..8 {
+            let m = 1u8 << bit;
+            file[i] ^= m;
+            let trace = format!("bit;{};byte={i};mask={m}", b.spec.tag());
+            run_corrupt(ctx, b, &file, usize::MAX, if i < 20 { "header_bit" } else { "key_bit" }, &trace);
+            file[i] ^= m;
+        }
+    }
+    ctx.distinct(common::hash_of(&("bits", b.spec)));
+}
+
+fn run_set(ctx: &Ctx, spec: SetSpec, max_degree: usize) {
+    let b = build_set(spec);
+    ctx.inc("stored_sets");
+    ctx.inc(&format!("stored_sets_with_{}_keys", b.n()));
+    store_faults(ctx, &b);
+    for k in 0..=b.stream.len() {
+        for chunk in CHUNKS {
+            prefix_case(ctx, &b, k, chunk);
+        }
+        ctx.distinct(common::hash_of(&("prefix", spec, k)));
+    }
+    header_faults(ctx, &b, max_degree);
+    bit_flips(ctx, &b);
+    if spec.start.is_none() && spec.rot == spec.h {
+        ctx.sample(format!(
+            "{}: {} keys, stream {} bytes, {} pre-crash cookies ({} still valid at store time)",
+            spec.tag(), b.n(), b.stream.len(), b.pre.len(), b.pre.iter().filter(|c| b.pre_valid(c)).count()
+        ));
+    }
+}
+
+// ---------------------------------------------------------------------------------
+// replay
+// ---------------------------------------------------------------------------------
+
+fn replay(ctx: &Ctx, trace: &str) -> String {
+    let parts: Vec<&str> = trace.split(';').collect();
+    let Some(spec) = SetSpec::parse(&parts) else { return "bad trace".into() };
+    let b = build_set(spec);
+    let num = |n: &str| field(&parts, n).and_then(|v| v.parse::<usize>().ok());
+    match parts[0] {
+        "prefix" => {
+            let k = num("k").unwrap_or(0).min(b.stream.len());
+            let chunk = match num("chunk") { Some(0) | None => usize::MAX, Some(c) => c };
+            prefix_case(ctx, &b, k, chunk)
+        }
+        "hdr" => {
+            let f = HdrFault::parse(&parts);
+            run_corrupt(ctx, &b, &f.apply(&b.stream), usize::MAX, "header_field", trace)
+        }
+        "bit" => {
+            let mut file = b.stream.clone();
+            let i = num("byte").unwrap_or(0).min(file.len() - 1);
+            file[i] ^= num("mask").unwrap_or(1) as u8;
+            run_corrupt(ctx, &b, &file, usize::MAX, "bit", trace)
+        }
+        "wfail" => {
+            let per = match num("per") { Some(0) | None => usize::MAX, Some(c) => c };
+            let mut w = LogWriter::new(per, num("k"));
+            let r = common::catch(|| b.prov.store(&mut w));
+            let ok = matches!(r, Ok(Err(_))) == num("k").is_some() && w.bytes.len() == num("k").unwrap_or(b.stream.len());
+            if !ok {
+                ctx.violation("C27:store-stream-depends-on-writer", format!("{r:?} / {} bytes", w.bytes.len()), trace);
+            }
+            format!("store={:?} written={}", r.map(|x| x.is_ok()), w.bytes.len())
+        }
+        _ => "unknown trace kind".into(),
+    }
+}
+
+#[test]
+fn check() {
+    let ctx = Ctx::new("C27");
+    if let Some(t) = common::replay_trace() {
+        let a = replay(&ctx, &t);
+        let b = replay(&ctx, &t);
+        common::report_replay("C27", &a, &b, ctx.violation_count() > 0);
+        return;
+    }
+    let max_degree = if ctx.quick() { 3 } else { 4 };
+    let hmax = if ctx.quick() { 3usize } else { 5 };
+    ctx.rule(&format!(
+        "stored sets: history h in 0..={hmax} x start in {{KeySetProvider::new(h), one key at id offset 2^32-2}} x rotations 0..=h+2 (1..=h+1 keys, \
+         2 cookies issued per rotation). Per set: store through writers taking 1/3/64/all bytes per call and through writers failing \
+         after k bytes for every k; load of EVERY prefix 0..=len through readers handing out all/1/7 bytes per call; header fields \
+         (time, id offset, primary, count) set to {{0,1,n-1,n,n+1,2^31,2^32-1}} (time also 2^63-1, 2^63, 2^64-1): all combinations \
+         touching <= {max_degree} fields; every single bit of every file byte flipped. Every loaded set is used (issue+decode both \
+         algorithms, decode all pre-crash cookies, rotate, issue+decode again). Distinct & non-trivial = a (set, prefix length), \
+         (set, header fault), or set-wide bit sweep; every one is a different file."
+    ));
+    ctx.assume("the daemon's store is truncate-then-write of exactly KeySetProvider::store's stream (verified on the real file system by the ntpd part), so crash states are the prefixes of that stream");
+    ctx.assume("file layout used to aim the faults (8 byte time, 3 x u32 big endian, 64 byte keys) is checked against the recorded stream of every set (class C27:format-assumption), not trusted");
+    ctx.assume("a panic caught by the harness stands for an abort of the daemon (shipped profile: panic = \"abort\")");
+    ctx.assume("multi-byte corruptions other than whole header fields, and key sets with more keys than the enumerated maximum, are not enumerated");
+
+    let mut specs = Vec::new();
+    for h in 0..=hmax {
+        for start in [None, Some(u32::MAX - 1)] {
+            for rot in 0..=h + 2 {
+                specs.push(SetSpec { h, start, rot });
+            }
+        }
+    }
+    // smallest sets first so that the first trace kept per class is a minimal one
+    specs.sort_by_key(|s| (s.h.min(s.rot), s.start.is_some(), s.rot, s.h));
+    let first = specs.remove(0);
+    run_set(&ctx, first, max_degree);
+    common::par_for(specs.len() as u64, 1, |i| run_set(&ctx, specs[i as usize], max_degree));
+    ctx.exhaustive(true);
+    ctx.finish();
+}
